@@ -673,26 +673,22 @@ func createConnHandler(
 				return err
 			}
 
-			var inErr error
-			var wg sync.WaitGroup
 			if sd.ClientStreams && firstErr == nil {
-				wg.Add(1)
 				go func() {
 					for {
 						args := dynamicpb.NewMessage(argsDesc)
-						if inErr = stream.RecvMsg(args); inErr != nil {
-							if inErr == io.EOF {
+						if err := stream.RecvMsg(args); err != nil {
+							if err == io.EOF {
 								// Forward the client's half-close.
 								clientStream.CloseSend() //nolint:errcheck
 							}
-							break
+							return
 						}
 
-						if inErr = clientStream.SendMsg(args); inErr != nil {
-							break
+						if err := clientStream.SendMsg(args); err != nil {
+							return
 						}
 					}
-					wg.Done()
 				}()
 			}
 			var outErr error
@@ -714,12 +710,8 @@ func createConnHandler(
 			if isStreamError(outErr) {
 				return outErr
 			}
-			if sd.ClientStreams {
-				wg.Wait()
-				if isStreamError(inErr) {
-					return inErr
-				}
-			}
+			// The back-end has finished the call: its status is the result,
+			// whether or not the client is still sending.
 			trailer := clientStream.Trailer()
 			stream.SetTrailer(trailer)
 			return nil
